@@ -14,6 +14,7 @@ import hashlib
 import json
 import os
 import re
+import time
 
 from vlib import core
 
@@ -37,50 +38,118 @@ def _spec_hash(names):
     return h.hexdigest()[:16]
 
 
-def mc_histories(ctx, cfg, key):
-    """Model-check MC_Mem with `cfg` (a failure is a tool error) and return the path of the ndjson
-    file of the histories it printed.  MC does not depend on /repo: the quick tier re-uses the
-    histories and statistics of an earlier identical run (same module texts)."""
-    hsh = _spec_hash(["Backing.tla", "Mem.tla", "BV.tla", "mc/MC_Mem.tla", "mc/" + cfg])
+def mc_run(ctx, module, cfg, key, deps, hist=False):
+    """Model-check spec/mc/<module> with `cfg` (a failure is a tool error).  With hist=True the run
+    also prints every history (invariant Dump) and the path of the ndjson file holding them is
+    returned.  MC does not depend on /repo: the quick tier re-uses the statistics (and histories) of
+    an earlier identical run - identical texts of the modules in `deps`."""
+    hsh = _spec_hash(deps + ["mc/%s.tla" % module, "mc/" + cfg])
     cdir = os.path.join(core.WORK, "mc_cache")
     os.makedirs(cdir, exist_ok=True)
     base = os.path.join(cdir, "C08-%s-%s" % (cfg.replace(".cfg", ""), hsh))
-    if ctx.quick and os.path.exists(base + ".json") and os.path.exists(base + ".ndjson") \
+    if ctx.quick and os.path.exists(base + ".json") and (not hist or os.path.exists(base + ".ndjson")) \
             and not os.environ.get("VERIF_NO_MC_CACHE"):
         with open(base + ".json") as f:
             st = json.load(f)
         st["cached"] = True
     else:
-        r = core.run_tlc(os.path.join(core.SPEC, "mc", "MC_Mem.tla"), os.path.join(core.SPEC, "mc", cfg),
+        r = core.run_tlc(os.path.join(core.SPEC, "mc", module + ".tla"), os.path.join(core.SPEC, "mc", cfg),
                          workers=min(core.NCPU, 16), heap="6g", timeout=1800, coverage=False, depth_first=False)
         if not r.ok:
-            raise core.ToolError("model checking of MC_Mem/%s failed:\n%s" % (cfg, core.tlc_error_summary(r)))
-        n = 0
-        with open(base + ".ndjson.tmp", "w") as f:
-            for line in r.prints:
-                m = _HIST.match(line)
-                if m:
-                    s = core._unescape_tla_string(m.group(1))
-                    json.loads(s)
-                    f.write(s + "\n")
-                    n += 1
-        if n != r.distinct:
-            raise core.ToolError("MC_Mem/%s printed %d histories for %d states" % (cfg, n, r.distinct))
-        os.replace(base + ".ndjson.tmp", base + ".ndjson")
+            raise core.ToolError("model checking of %s/%s failed:\n%s" % (module, cfg, core.tlc_error_summary(r)))
         st = {"distinct_states": r.distinct, "states_generated": r.generated, "depth": r.depth,
-              "wall_s": round(r.wall, 1), "histories": n}
+              "wall_s": round(r.wall, 1)}
+        if hist:
+            n = 0
+            with open(base + ".ndjson.tmp", "w") as f:
+                for line in r.prints:
+                    m = _HIST.match(line)
+                    if m:
+                        s = core._unescape_tla_string(m.group(1))
+                        json.loads(s)
+                        f.write(s + "\n")
+                        n += 1
+            if n != r.distinct:
+                raise core.ToolError("%s/%s printed %d histories for %d states" % (module, cfg, n, r.distinct))
+            os.replace(base + ".ndjson.tmp", base + ".ndjson")
+            st["histories"] = n
         with open(base + ".json", "w") as f:
             json.dump(st, f)
     ctx.mc[key] = st
     ctx.states += st["distinct_states"]
     ctx.transitions += st["states_generated"]
-    return base + ".ndjson", st["histories"]
+    return (base + ".ndjson", st["histories"]) if hist else None
+
+
+MEM_DEPS = ["Backing.tla", "Mem.tla", "BV.tla"]
+
+
+def mc_histories(ctx, cfg, key):
+    return mc_run(ctx, "MC_Mem", cfg, key, MEM_DEPS, hist=True)
 
 
 def mc(ctx):
     out = [mc_histories(ctx, "MC_Mem_2.cfg", "MC_Mem <=2 ops, full alphabet")]
     if not ctx.quick:
         out.append(mc_histories(ctx, "MC_Mem_3s.cfg", "MC_Mem <=3 stores/clones"))
+    # the expectations hard-coded in falcon's own paged-memory unit tests are what Mem answers
+    mc_run(ctx, "MC_MemUnit", "MC_MemUnit.cfg", "MC_MemUnit: the 5 unit tests of paged.rs", ["Backing.tla", "Mem.tla"])
+    # the implementation-shaped model (cells, three-step store, fast path / fallback load) refines Mem
+    n = 2 if ctx.quick else 3
+    for e in ("little", "big"):
+        mc_run(ctx, "MC_Paged", "MC_Paged_%s_%d.cfg" % (e, n), "MC_Paged %s-endian <=%d stores" % (e, n),
+               ["Backing.tla", "PagedImpl.tla"])
+    return out
+
+
+# ------------------------------------------------------------------------------------------------
+# a recorder that dies
+# ------------------------------------------------------------------------------------------------
+def crashed_sessions(ctx, binname, paths):
+    """A stack overflow or abort inside falcon kills the recorder (not catchable in-process).  The
+    recorder parks the inputs of the session it is driving in `<out>.cur`; if that file is still
+    there the session is re-driven with a flush after every event, the call that never returned is
+    appended with res = {"abort": ..} and the trace specification gets to reject it like any other
+    observation (a call that does not return is not an answer the specification allows)."""
+    out = []
+    for p in paths:
+        if not os.path.exists(p) or (os.path.getsize(p) == 0 and not os.path.exists(p + ".cur")):
+            raise core.ToolError("recorder %s produced nothing: %s" % (binname, p))
+        if not os.path.exists(p + ".cur"):
+            continue
+        with open(p + ".cur") as f:
+            inputs = json.load(f)
+        # the session that was being driven may be partly in the output (possibly with a torn last
+        # line): cut the output at the last `begin` (at worst one complete session is not judged)
+        with open(p) as f:
+            lines = f.readlines()
+        last = max([i for i, l in enumerate(lines) if '"ev":"begin"' in l], default=0)
+        with open(p, "w") as f:
+            f.writelines(lines[:last])
+        tag = "crash%d" % len(out)
+        inp = os.path.join(ctx.work, tag + "_in.ndjson")
+        with open(inp, "w") as f:
+            for e in inputs:
+                f.write(json.dumps(e) + "\n")
+        part = ctx.record(binname, ["--mode", "replay", "--in", inp], tag + ".ndjson", allow_fail=True)
+        evs = []
+        with open(part) as f:
+            for line in f:
+                try:
+                    evs.append(json.loads(line))
+                except ValueError:
+                    break
+        if len(evs) >= len(inputs):
+            raise core.ToolError("recorder %s died while driving a session that replays cleanly: %s" % (binname, p + ".cur"))
+        bad = dict(inputs[len(evs)])
+        abort = {"abort": "the recorder process died inside this call (stack overflow / abort)"}
+        bad["res"] = [abort] * bad["n"] if bad["ev"] == "scan" else abort
+        evs.append(bad)
+        with open(part, "w") as f:
+            for e in evs:
+                f.write(json.dumps(e) + "\n")
+        core.log("[%s] recorder died in session parked at %s: call #%d (%s) never returned" % (ctx.prop, p + ".cur", len(evs), bad["ev"]))
+        out.append(part)
     return out
 
 
@@ -112,9 +181,11 @@ def _attach_sessions(ctx, results):
             rj["session"] = [json.loads(l) for l in lines[b:i + 1]]
 
 
-def validate(ctx, paths, nshards):
+def validate(ctx, jobs):
+    """jobs: [(trace path, number of shards)]; all shards are validated in one parallel batch"""
     shards = []
-    for p in paths:
+    paths = [p for p, _ in jobs]
+    for p, nshards in jobs:
         shards += ctx.shard(p, nshards, by_session=True)
     results = ctx.tlc_trace_many(TRACE, shards, parallel=min(core.NCPU, 16), env=TLC_ENV if ctx.quick else TLC_ENV_LONG,
                                  timeout=1500, heap="3g")
@@ -153,17 +224,22 @@ def _sample(ctx, path, skip_sessions):
 
 def run(ctx):
     ctx.build(["c08"])
+    t0 = time.time()
     hists = mc(ctx)
+    t1 = time.time()
     q = ctx.quick
-    jobs = [("c08", ["--mode", "gen", "--in", h], "gen%d.ndjson" % i) for i, (h, _) in enumerate(hists)]
+    may_die = {"allow_fail": True}          # a dying recorder is an observation: see crashed_sessions
+    jobs = [("c08", ["--mode", "gen", "--in", h], "gen%d.ndjson" % i, may_die) for i, (h, _) in enumerate(hists)]
     nrand, ops = (240, 120) if q else (6000, 400)
     per = 120 if q else 375
     for i in range(nrand // per):
-        jobs.append(("c08", ["--mode", "random", "--n", per, "--ops", ops, "--stream", i], "rand%02d.ndjson" % i))
+        jobs.append(("c08", ["--mode", "random", "--n", per, "--ops", ops, "--stream", i], "rand%02d.ndjson" % i, may_die))
     paths = ctx.record_many(jobs, parallel=8)
+    crashes = crashed_sessions(ctx, "c08", paths)
     gens, rands = paths[:len(hists)], paths[len(hists):]
-    validate(ctx, gens, 4 if q else 48)
-    validate(ctx, rands, 1 if q else 2)
+    t2 = time.time()
+    validate(ctx, [(p, 4 if q else 48) for p in gens] + [(p, 1 if q else 2) for p in rands] + [(p, 1) for p in crashes])
+    core.log("[%s] mc %.1fs, recording %.1fs, trace validation %.1fs" % (ctx.prop, t1 - t0, t2 - t1, time.time() - t2))
     _sample(ctx, gens[0], 2500)
     _sample(ctx, rands[0], 1)
     ctx.extra["exhaustive"] = True
